@@ -641,7 +641,7 @@ class CoqBatch:
 _uid = itertools.count()
 
 
-def mol_cases(m, tag, fam, with_ref=True, max_ref_atoms=26, max_ref_rings=8):
+def mol_cases(m, tag, fam, with_ref=True, max_ref_atoms=70, max_ref_rings=12):
     """Coq definitions + cases for one live molecule (every case is one helper application, see the end of model/Rings.v)"""
     i = next(_uid)
     sssr = list(m.sssr)
@@ -1225,7 +1225,7 @@ def run(ck):
         'the SSSR selection (_bfs, _make_pid, _c_set, _rings_filter, _is_condensed_ring, _connected_rings) is NOT modelled; every sssr output of the '
         'inputs is run through the verified checker is_cycle_basis instead (theorems C06_basis_checker_sound / _complete)',
         'minimum total size of sssr is certified PER MOLECULE: is_cycle_basis g sssr && total_size sssr = total_size (mcb_ref g) is evaluated inside Coq '
-        'on molecules <= 26 atoms / 8 rings (theorem C06_minimum_certificate: then sssr is a minimum cycle basis); on larger molecules and for '
+        'on molecules <= 70 atoms / 12 rings (theorem C06_minimum_certificate: then sssr is a minimum cycle basis); on larger molecules and for '
         'numbering independence it is a search result (pure-Python Horton size vector on every input, rebuilds under renumbering)',
         'set iteration order (set.pop in _connected_components) is an explicit input of the model and the theorem holds for every order; '
         'set-valued results are compared after sorting',
@@ -1309,7 +1309,7 @@ def run(ck):
                 # for claimed-domain inputs search_one has already raised the counterexample (ref_sizes = sizes of the original)
             if to_coq and len(m) <= 40 and t == 0:
                 try:
-                    batch.add(*mol_cases(r, rtag, fam, with_ref=False))
+                    batch.add(*mol_cases(r, rtag, fam))   # the renumbered, re-inserted copy gets its own minimality certificate
                     sent.add(rtag)
                     n_coq += 1
                 except Exception as e:
@@ -1352,7 +1352,7 @@ def run(ck):
                         continue
                     ck.case(('exh-renum', n, es), nontrivial=nu > 0)
                     search_one(ck, r, f'graph{n}:{es} renumbered', fam, ref_sizes=sizes, stats=stats)
-                    batch.add(*mol_cases(r, f'graph{n}:{es} renumbered', fam, with_ref=False))
+                    batch.add(*mol_cases(r, f'graph{n}:{es} renumbered', fam))
                     sent.add(f'graph{n}:{es} renumbered')
                     n_coq += 1
     timing['exhaustive small graphs (python)'] = round(time.time() - t0, 1)
@@ -1421,6 +1421,7 @@ def run(ck):
     timing['coq evaluation'] = round(time.time() - t0, 1)
     timing['slowest coq files (s, cases, first tag)'] = sorted(batch.times, reverse=True)[:6]
     ck.extra['coq_cases'] = n_cases
+    ck.extra['minimum_certificates_evaluated_in_coq'] = sum(1 for f in batch.files for _, cs in f for c in cs if c[0] == 'oracle' and c[3].startswith('c_ref'))
     ck.extra['molecules_through_verified_checker'] = n_coq
     ck.extra['search_stats'] = dict(stats)
     corr_fail = [f for f in failing if f[0] == 'corr']
